@@ -185,6 +185,8 @@ class Graph:
         # block edges
         for b in f.blocks:
             succ = b.get('succ', [])
+            if b.get('nr'):
+                succ = []   # ends in a noreturn call (assert failure, abort): the path dies here
             term = b.get('t')
             tails = last[b['id']]
             cond = term.get('cnd') if term else None
